@@ -190,18 +190,26 @@ def public_params(b, view, tab):
 
 
 def documented_vartime_operands(b, names):
-    """Parameter names the doc comment says the function is variable-time in; None = no restriction stated."""
-    doc = (b.get("doc") or "") + "\n" + (b.get("trait_doc") or "")
-    pnames = set(names.values())
+    """Parameter names the documentation says the function is variable-time in; None = no operand named.
+    A name counts when the nearest preceding timing word is about variable time / leaking
+    ("variable time with respect to `shift`", "`exponent_bits` is leaked") and not when it is about constant
+    time ("constant-time with respect to `self`")."""
+    doc = ((b.get("doc") or "") + " " + (b.get("trait_doc") or "")).replace("\n", " ")
+    pnames = set(names.values()) | {"self"}
     found = set()
-    stated = False
-    for sent in re.split(r"(?<=[.!\n])\s", doc):
-        if re.search(r"variable|vartime|constant[- ]time|leak", sent, re.I):
-            for m in re.finditer(r"`([A-Za-z_][A-Za-z0-9_]*)`", sent):
-                if m.group(1) in pnames or m.group(1) == "self":
-                    found.add(m.group(1))
-                    stated = True
-    return found if stated else None
+    for m in re.finditer(r"`([A-Za-z_][A-Za-z0-9_]*)`", doc):
+        nm = m.group(1)
+        if nm not in pnames:
+            continue
+        before = doc[max(0, m.start() - 90):m.start()].lower()
+        after = doc[m.end():m.end() + 40].lower()
+        pos = max(before.rfind("variable"), before.rfind("vartime"), before.rfind("leak"))
+        neg = max(before.rfind("constant-time"), before.rfind("constant time"))
+        if pos >= 0 and pos > neg:
+            found.add(nm)
+        elif neg < 0 and re.match(r"\s*(is|are)\s+leaked", after):
+            found.add(nm)
+    return found if found else None
 
 
 def is_abort_guard(view, info, bb):
@@ -275,6 +283,9 @@ def run(facts, report, config):
         if vt:
             report.count("entry_points_documented_vartime")
         pub = public_params(b, view, tab)
+        if vt:
+            ops = documented_vartime_operands(b, b.get("names", {}))
+            report.notes_table.setdefault("vartime_operands", {})[norm_id(bid)] = sorted(ops) if ops else "all (no operand named)"
         for e in events.get(bid, []):
             if e.kind not in pol.propagate_kinds:
                 continue
